@@ -11,6 +11,7 @@
    `Program.__eq__/__ne__` against a bytes constant (tree-hash comparison in Python) is
    modelled as structural comparison of trees. *)
 From Clvm Require Export Model.Err Model.Sexp Model.Classic Model.IntEnc.
+From Clvm Require Gen.PyConsts.
 Open Scope N_scope.
 
 Inductive pyexc :=
@@ -133,8 +134,10 @@ Fixpoint py_de_loop (limit : option N) (fuel : nat) (ops : list parse_op) (vals 
 Definition py_sexp_from_stream (limit : option N) (bs : bytes) : pyres (sexp * bytes) :=
   py_de_loop limit (de_fuel bs) [OpSExp] [] bs.
 
-(* which variant /repo has now; Pins/C28.v compares it with what the translator reads *)
-Definition py_current_limit : option N := None.
+(* which variant /repo has now: what the translator read from ser.py on this run (None = no
+   `bit_count > k` check). Theorems exist for None (refuted) and Some 6 (agreement);
+   Pins/C28.v fails on any other value. *)
+Definition py_current_limit : option N := Gen.PyConsts.py_src_size_field_limit.
 
 (* ------------------------------------------------------------------ casts.py *)
 
